@@ -63,8 +63,9 @@ if not res["confirmed"]:
     sys.exit(1)
 dst = f"{ROOT}/seeded/{prop}-{keep_as or idx}"
 os.makedirs(dst, exist_ok=True)
-for f in ["patch.diff", "demo.rs", "README.md"]:
-    shutil.copy(f"{src}/{f}", f"{dst}/{f}")
+for f in ["patch.diff", "demo.rs", "README.md", "run_demo.sh", "run.sh"]:
+    if os.path.exists(f"{src}/{f}"):
+        shutil.copy(f"{src}/{f}", f"{dst}/{f}")
 meta = {"property": prop, "source": "independent sub-agent given only the property text and a scratch worktree", "features": feat, "demo": {"file": demo_dest, "command": demo_cmd}, "confirmation": res,
         "needs": open(f"{src}/README.md").read()[:1500]}
 json.dump(meta, open(f"{dst}/meta.json", "w"), indent=1)
